@@ -57,8 +57,8 @@ func init() {
 		NotCovered: "the sorted-list invariant of the open-upvalue list under arbitrary capture orders (captureUpvalue), and which scope a given local is closed with in every loop form.",
 	}
 	props["C29"] = &PropSpec{
-		Rules:      []string{"optable/handled", "optable/width", "optable/siteinfo", "cover/offsets", "layout/prepend-bytes", "pool/patched-slot-unique", "layout/params-first"},
-		Decides:    "that a value-pool slot the compiler reserves with a placeholder and patches later cannot be shared with another load (the pool does not de-duplicate the placeholder's representation); that a function prepending a prologue to a finished instruction stream shifts stored offsets and line-info counts by exactly the number of bytes it prepended on every path; that the three places which must agree on the instruction encoding do agree, for every opcode: the VM run loop, the disassembler and every emission site of the compiler (existence of a handler, and the number of operand bytes); that a call opcode is always paired with the call-site record type its handler reinterprets; and that the functions rewriting a finished instruction stream move every stored offset.",
+		Rules:      []string{"optable/handled", "optable/width", "optable/siteinfo", "cover/offsets", "layout/prepend-bytes", "pool/patched-slot-unique", "layout/params-first", "stack/result-protocol"},
+		Decides:    "that a node compiler answers \"nothing left on the operand stack\" only when its caller said the value is ignored (otherwise the stack depth the compiler assumes and the depth that runs differ by one); that parameters are the first local indices allocated; that a value-pool slot the compiler reserves with a placeholder and patches later cannot be shared with another load (the pool does not de-duplicate the placeholder's representation); that a function prepending a prologue to a finished instruction stream shifts stored offsets and line-info counts by exactly the number of bytes it prepended on every path; that the three places which must agree on the instruction encoding do agree, for every opcode: the VM run loop, the disassembler and every emission site of the compiler (existence of a handler, and the number of operand bytes); that a call opcode is always paired with the call-site record type its handler reinterprets; and that the functions rewriting a finished instruction stream move every stored offset.",
 		NotCovered: "operand-stack depth consistency and the numeric values of jump offsets for particular programs (properties of emitted sequences, not of the emitter's shape).",
 	}
 }
@@ -149,8 +149,8 @@ func init() {
 		NotCovered: "that each finally/defer runs exactly once and innermost first, and the values control-flow expressions produce: execution-order properties of the generated code over all programs.",
 	}
 	props["C15"] = &PropSpec{
-		Rules:      []string{"path/exactlyone", "cover/offsets", "layout/prepend-bytes", "stack/stale-after-reentry", "layout/params-first"},
-		Decides:    "that the saved stack of a generator or async body is copied into the running thread through an address that is still valid (not one taken before a call that may have reallocated the value stack); that the hidden thread-pool argument of an async method and its parameters occupy the frame slots the VM passes them in; that the value (or error) of an async body reaches its awaiters exactly once:every path through the worker functions settles the promise exactly once, every settlement decrements the promise's wait group once and enqueues the continuations once, every constructor of an unsettled promise increments the wait group once; and that the prologue prepended to generator and async bodies shifts every stored offset (catch entries, recorded call sites) by its own length, without which the property's own generator example crashes.",
+		Rules:      []string{"path/exactlyone", "cover/offsets", "layout/prepend-bytes", "stack/stale-after-reentry", "layout/params-first", "stack/result-protocol"},
+		Decides:    "that a `yield` (or any other node) whose value is used leaves a value on the stack, so that resuming a generator inside a loop body does not pop one of the frame's locals per iteration; that the saved stack of a generator or async body is copied into the running thread through an address that is still valid (not one taken before a call that may have reallocated the value stack); that the hidden thread-pool argument of an async method and its parameters occupy the frame slots the VM passes them in; that the value (or error) of an async body reaches its awaiters exactly once:every path through the worker functions settles the promise exactly once, every settlement decrements the promise's wait group once and enqueues the continuations once, every constructor of an unsettled promise increments the wait group once; and that the prologue prepended to generator and async bodies shifts every stored offset (catch entries, recorded call sites) by its own length, without which the property's own generator example crashes.",
 		NotCovered: "that wrapping a body as a generator or async function preserves the values it yields and returns (resumption at the right instruction with the right stack): a relation between two executions.",
 	}
 	props["C16"] = &PropSpec{
